@@ -13,3 +13,7 @@ package conf
 //@   ensures result0 == coval(self, original)
 //@   ensures result1 == coerr(self, original)
 //@   ensures result1 == nil ==> dyn(result0) == cotype(self)
+
+// A slice coercer produces a value of slice kind (or an error).
+//@ specfun slcoercer(Fn) Bool
+//@ smt (assert (forall ((f Fn) (x Iface)) (! (=> (and (zz_slcoercer f) (= (zz_dyn (zz_coerr f x)) 0)) (= (zz_rv_kind (zz_rv_of (zz_coval f x))) 23)) :pattern ((zz_coval f x)))))
